@@ -132,6 +132,16 @@ def run_cross(ctx, case):
         if a[0] != a[1] or a[0] != a[2]:
             same_set = all(sorted(x) == sorted(a[0]) for x in a) if all(x and x[0] != "exc" for x in a) else False
             kind = "order-differs" if same_set else "content-differs"
+            if q[0] == "complete" and not same_set and all("ok" in res[qi] for res in results):
+                # shape class of a pinned finding: the same names with the same completions in the same order in every
+                # process - what differs is WHICH of several same-named definitions (an attribute defined by two classes
+                # of a union receiver) stands behind one of them
+                nm = [[(d.get("name"), d.get("complete")) for d in res[qi]["ok"]] for res in results]
+                if nm[0] == nm[1] == nm[2]:
+                    kind, q0 = "content-differs", q[0] + ":same-names-other-definition"
+                    devs.append(("cross-process-%s:%s" % (kind, q0), "%s at %s in %s: %s | %s | %s" % (
+                        q[0], (q[1], q[2]), case["src"]["origin"], str(a[0])[:200], str(a[1])[:200], str(a[2])[:200])))
+                    continue
             devs.append(("cross-process-%s:%s" % (kind, q[0]), "%s at %s in %s: %s | %s | %s" % (
                 q[0], (q[1], q[2]), case["src"]["origin"], str(a[0])[:200], str(a[1])[:200], str(a[2])[:200])))
     ctx.sample({"origin": case["src"]["origin"], "queries": queries[:4], "hashseeds": ["0", "1", str(case["third_seed"])]}, limit=2)
